@@ -143,10 +143,10 @@ def run(tier, only=None):
         # parametric families (families.py, c01.py) on the lazy interfaces: single-module programs, expected observations from
         # MIRRun.tla; the lazy basic-block generator (versions of blocks by variable properties) is a code path of its own
         import c01
-        fcases = families.property_cases() + families.clone_jmpi_cases() + c01.island_cases() + c01.loop_cases()[::3] + c01.gvar_cases() \
+        fcases = families.property_cases() + families.jcall_cases() + families.clone_jmpi_cases() + c01.island_cases() + c01.loop_cases()[::3] + c01.gvar_cases() \
             + families.spill_index_cases()[::2] + families.fpcmp_cases(vals=("-0", "1.5", "nan"), fmts=("f", "ld")) + families.andext_cases()[::7]
         if tier == "thorough":
-            fcases = families.property_cases() + families.clone_jmpi_cases() + c01.island_cases() + c01.loop_cases() + c01.gvar_cases() \
+            fcases = families.property_cases() + families.jcall_cases() + families.clone_jmpi_cases() + c01.island_cases() + c01.loop_cases() + c01.gvar_cases() \
                 + families.spill_index_cases() + families.fpcmp_cases() + families.andext_cases() + c01.memwin_cases(8, vlib.seed() % 8)
         fam, rf = progs.run_family(fcases)
         engines = ["bb0", "bb1", "bb2", "bb3", "lazy0", "lazy2", "ishim"] if tier == "thorough" else ["bb0", "bb2", "lazy2", "ishim"]
